@@ -228,16 +228,24 @@ CacheTfs == {<<"lowercase">>, <<"lowercase", "trim">>, <<"trim", "lowercase">>, 
 SelTgtRx == Tgt("ARGS_GET", SelRx([m |-> "prefix", lit |-> s_a]), FALSE, << >>)
 CacheTargets == {T("ARGS_GET"), TK("ARGS_GET", s_a), T("ARGS"), SelTgtRx}
 CacheEntries == {E("ARGS_GET", k, v) : k \in {s_a, s_b}, v \in {s_X, s_sx, s_y}}
-CacheRule(id, tg, tfs) == MkRule(id, 2, <<RuleLink(<<tg>>, tfs, OpLit("streq", s_x), FALSE, << >>)>>)
+CacheRuleLit(id, tg, tfs, lit) == MkRule(id, 2, <<RuleLink(<<tg>>, tfs, OpLit("streq", lit), FALSE, << >>)>>)
+CacheRule(id, tg, tfs) == CacheRuleLit(id, tg, tfs, s_x)
+\* a transformation that is not idempotent, applied once and twice in a row: hexEncode("y") = "79", twice = "3739"
+s_79 == <<55, 57>>
+s_3739 == <<51, 55, 51, 57>>
+RepTfs == {<<"hexEncode">>, <<"hexEncode", "hexEncode">>, <<"lowercase", "hexEncode", "hexEncode">>}
 CacheChain(id, tfs) ==
   MkRule(id, 2, <<RuleLink(<<T("ARGS_GET")>>, << >>, OpLit("contains", s_x), FALSE, << >>),
                   RuleLink(<<T("MATCHED_VAR")>>, tfs, OpLit("streq", s_x), FALSE, << >>)>>)
 CachePicks(maxEntries, rich, slice, slices) ==
   [t1 : IF rich THEN CacheTfs ELSE {<<"lowercase">>, <<"trim", "lowercase">>},
-   g2 : CacheTargets, t2 : CacheTfs, third : IF rich THEN {"none", "chainA", "chainB"} ELSE {"none", "chainB"},
+   g2 : CacheTargets, t2 : CacheTfs, third : IF rich THEN {"none", "chainA", "chainB"} ELSE {"none", "chainB"}, lit : {s_x},
+   rq : SliceOf(SeqsOfLen(CacheEntries, maxEntries), slice, slices)]
+  \cup
+  [t1 : RepTfs, g2 : {T("ARGS_GET")}, t2 : RepTfs, third : {"none"}, lit : {s_79, s_3739},
    rq : SliceOf(SeqsOfLen(CacheEntries, maxEntries), slice, slices)]
 CacheScen(pk) ==
-  MkScen(<<CacheRule(10, T("ARGS_GET"), pk.t1), CacheRule(20, pk.g2, pk.t2)>>
+  MkScen(<<CacheRuleLit(10, T("ARGS_GET"), pk.t1, pk.lit), CacheRuleLit(20, pk.g2, pk.t2, pk.lit)>>
          \o (IF pk.third = "none" THEN << >>
              ELSE IF pk.third = "chainA" THEN <<CacheChain(30, pk.t1)>>
              ELSE <<CacheChain(30, pk.t1), CacheChain(40, pk.t1)>>),
